@@ -74,6 +74,9 @@ var c15Neighbors = []struct{ name, before, after, outBefore, outAfter string }{
 	{"literal", "{literal}[{/literal}", "{literal}]{/literal}", "[", "]"},
 	{"self-closing-let", "{let $q: 1 /}", "{$q}", "", "1"},
 	{"call-with-param", "{call .f}{param x: 2 /}{/call}", "{call .f}{param x}3{/param}{/call}", "F2", "F3"},
+	// (the text stands in a content block, between two content blocks of its own)
+	{"between-inner-blocks", "{let $o}{let $i}I{/let}", "{let $j}J{/let}{$i}{$j}{/let}{$o|noAutoescape}", "", "IJ"},
+	{"between-content-params", "{let $o}{call .g}{param x}1{/param}{param y}2{/param}{/call}", "{call .f}{param x}3{/param}{/call}{/let}{$o|noAutoescape}", "G12", "F3"},
 	// (the text of a message: what looks like an HTML tag in it is a placeholder of the message, and still text)
 	{"msg", "{msg desc=\"d\"}", "{/msg}", "", ""},
 	{"msg-after-print", "{msg desc=\"d\"}{$x}", "{$x}{/msg}", "X", "X"},
